@@ -107,7 +107,7 @@ def sites(fb, want_fn=None):
         if want_fn is not None and not want_fn(f):
             continue
         loops = None
-        for n in f.nodes:
+        for n in f.own_nodes():
             k = n['k']
             if k not in ('CXXMemberCallExpr', 'CXXOperatorCallExpr', 'CallExpr'):
                 continue
